@@ -41,7 +41,7 @@ def generate(rng):
     dtype = rng.choice([None, "float32", "float64", "float64"])
     p0 = gen_primary(rng, "p0", kinds=STOCK_KINDS + ["TapePrimary", "TapePrimary"], dtypes=(dtype,), dt=dt)
     prims = [p0]
-    steps = rng.choice([2, 3, 4, 5, 7, 10])
+    steps = rng.nsteps([2, 3, 4, 5, 7, 10])
     d = gen_derivative(rng, "d0", p0, kinds=OPTION_KINDS + ["EuropeanForwardStartOption", "VarianceSwap"], steps=steps)
     derivs = [d]
     hedge = ["p0"]
@@ -76,7 +76,7 @@ def generate(rng):
     m, h = gen_hedger(rng, "h0", "m0", d, p0["kind"], H=H, listed=False, kinds=kinds)
     world = {"primaries": prims, "derivatives": derivs, "models": [m], "criteria": [], "hedgers": [h]}
     ops = []
-    n = rng.choice([1, 2, 3, 5, 8])
+    n = rng.npaths([1, 2, 3, 5, 8])
 
     def sim_all():
         ops.append({"op": "simulate", "target": "d0", "n_paths": n, "torch_seed": rng.seed31()})
